@@ -24,7 +24,12 @@ import (
 	"mods.irisnet.org/modules/token"
 	tokenv1 "mods.irisnet.org/modules/token/types/v1"
 
+	coinswapkeeper "mods.irisnet.org/modules/coinswap/keeper"
 	coinswaptypes "mods.irisnet.org/modules/coinswap/types"
+	farmkeeper "mods.irisnet.org/modules/farm/keeper"
+	htlckeeper "mods.irisnet.org/modules/htlc/keeper"
+	servicekeeper "mods.irisnet.org/modules/service/keeper"
+	tokenkeeper "mods.irisnet.org/modules/token/keeper"
 
 	"verifharness/chain"
 	"verifharness/gen"
@@ -33,7 +38,7 @@ import (
 
 type aOp struct {
 	Kind   string    `json:"kind"`   // update | genesis
-	Via    string    `json:"via"`    // update: deliver (ValidateBasic + handler) | handler (bare handler, as an embedding message would reach it)
+	Via    string    `json:"via"`    // update: deliver | handler (routed handler, as an embedding message reaches it) | msgserver (the Msg service implementation, below the router's ValidateBasic) | keeper (Keeper.SetParams)
 	Sender string    `json:"sender"` // "gov" = authority, "U0".., "self" = the module's own account, "GOV" = upper-case bech32 of the authority, or a literal
 	Spec   paramSpec `json:"spec"`
 }
@@ -85,8 +90,11 @@ func (m *aMachine) Next(t *rapid.T) aOp {
 		op.Kind = "genesis"
 		return op
 	}
-	op.Via = rapid.SampledFrom([]string{"deliver", "deliver", "handler"}).Draw(t, "via")
+	op.Via = rapid.SampledFrom([]string{"deliver", "deliver", "handler", "msgserver", "msgserver", "keeper"}).Draw(t, "via")
 	op.Sender = rapid.SampledFrom([]string{"gov", "gov", "gov", "gov", "U0", "U1", "U4", "self", "GOV", "", "cosmos1notbech32"}).Draw(t, "sender")
+	if op.Via == "keeper" {
+		op.Sender = "gov" // Keeper.SetParams has no notion of a sender: it is what the authority's message ends in
+	}
 	return op
 }
 
@@ -102,8 +110,59 @@ func senderAddr(E *chain.Env, module, s string) string {
 	return resolveAddr(E, s)
 }
 
-// bareHandler runs the routed handler without ValidateBasic on a branch that is written only on success
-// (what baseapp does for a message embedded in another message).
+// direct calls the module's Msg service implementation (keeper.NewMsgServerImpl(k).UpdateParams) or Keeper.SetParams itself,
+// i.e. the layers below the router's ValidateBasic, on a branch that is written only on success.
+func direct(c *chain.Case, p paramSpec, authority string, keeperLevel bool) (ok bool, detail string) {
+	E := c.E
+	mctx, write := c.Ctx.CacheContext()
+	mctx = mctx.WithEventManager(sdk.NewEventManager()).WithGasMeter(storetypes.NewInfiniteGasMeter())
+	defer func() {
+		if r := recover(); r != nil {
+			ok, detail = false, fmt.Sprintf("panic: %v", r)
+		}
+	}()
+	var err error
+	switch p.Module {
+	case "coinswap":
+		if keeperLevel {
+			err = E.K.Coinswap.SetParams(mctx, p.coinswap())
+		} else {
+			_, err = coinswapkeeper.NewMsgServerImpl(E.K.Coinswap).UpdateParams(mctx, &coinswaptypes.MsgUpdateParams{Authority: authority, Params: p.coinswap()})
+		}
+	case "farm":
+		if keeperLevel {
+			err = E.K.Farm.SetParams(mctx, p.farm())
+		} else {
+			_, err = farmkeeper.NewMsgServerImpl(E.K.Farm).UpdateParams(mctx, &farmtypes.MsgUpdateParams{Authority: authority, Params: p.farm()})
+		}
+	case "htlc":
+		if keeperLevel {
+			err = E.K.HTLC.SetParams(mctx, p.htlc(E))
+		} else {
+			_, err = htlckeeper.NewMsgServerImpl(E.K.HTLC).UpdateParams(mctx, &htlctypes.MsgUpdateParams{Authority: authority, Params: p.htlc(E)})
+		}
+	case "service":
+		if keeperLevel {
+			err = E.K.Service.SetParams(mctx, p.service())
+		} else {
+			_, err = servicekeeper.NewMsgServerImpl(E.K.Service).UpdateParams(mctx, &servicetypes.MsgUpdateParams{Authority: authority, Params: p.service()})
+		}
+	case "token":
+		if keeperLevel {
+			err = E.K.Token.SetParams(mctx, p.token())
+		} else {
+			_, err = tokenkeeper.NewMsgServerImpl(E.K.Token).UpdateParams(mctx, &tokenv1.MsgUpdateParams{Authority: authority, Params: p.token()})
+		}
+	}
+	if err != nil {
+		return false, err.Error()
+	}
+	write()
+	return true, ""
+}
+
+// bareHandler runs the routed handler on a branch that is written only on success (what baseapp does for a message embedded
+// in another message; the SDK 0.50 router calls ValidateBasic itself).
 func bareHandler(c *chain.Case, msg sdk.Msg) (ok bool, detail string) {
 	mctx, write := c.Ctx.CacheContext()
 	mctx = mctx.WithEventManager(sdk.NewEventManager()).WithGasMeter(storetypes.NewInfiniteGasMeter())
@@ -134,9 +193,12 @@ func (m *aMachine) Apply(op aOp) error {
 		msg := op.Spec.updateMsg(E, senderAddr(E, mod, op.Sender))
 		var ok bool
 		var detail string
-		if op.Via == "handler" {
+		switch op.Via {
+		case "handler":
 			ok, detail = bareHandler(m.c, msg)
-		} else {
+		case "msgserver", "keeper":
+			ok, detail = direct(m.c, op.Spec, senderAddr(E, mod, op.Sender), op.Via == "keeper")
+		default:
 			r := m.c.Deliver(msg)
 			ok, detail = r.Outcome == chain.OK, r.String()
 		}
@@ -277,7 +339,7 @@ func (m *aMachine) Classify() (bool, []string) {
 	return nt, cl
 }
 
-const authorityRule = "rapid state machine over the five UpdateParams messages: sender in {authority, users, module account, upper-case authority, garbage} x via {ValidateBasic+handler, bare handler} x parameter sets drawn per field from the message-space grids (absent/negative/0/10^-18/mid/1-10^-18/1/>1/huge decimals; nil/negative/0/huge coin amounts; odd, empty and over-long denoms; durations 0/1ns/max/negative; integers 0/1/max; HTLC asset lists with boundary locks, limits, deputies), plus keeper-level genesis import and ValidateGenesis of the module's own export with the generated set; non-trivial = history in which the authority stored a non-default set, a stranger submitted a set that Validate() accepts and the authority submitted a set that Validate() rejects; distinct by SHA-256 of the op list"
+const authorityRule = "rapid state machine over the five UpdateParams messages: sender in {authority, users, module account, upper-case authority, garbage} x via {ValidateBasic+routed handler, routed handler alone, the keeper's Msg service implementation called directly (below the router's ValidateBasic), Keeper.SetParams} x parameter sets drawn per field from the message-space grids (absent/negative/0/10^-18/mid/1-10^-18/1/>1/huge decimals; nil/negative/0/huge coin amounts; odd, empty and over-long denoms; durations 0/1ns/max/negative; integers 0/1/max; HTLC asset lists with boundary locks, limits, deputies), plus keeper-level genesis import and ValidateGenesis of the module's own export with the generated set; non-trivial = history in which the authority stored a non-default set, a stranger submitted a set that Validate() accepts and the authority submitted a set that Validate() rejects; distinct by SHA-256 of the op list"
 
 func TestC16Authority(t *testing.T) {
 	pbt.RunMachine(t, "C16", "c16-authority", authorityRule, newAuthority)
